@@ -238,3 +238,13 @@ Definition check_parallel (c : pcase) : bool :=
   (Z.of_nat (length (pc_field c)) =? n) &&
   forallb (fun i => fclose tol6 (cnorm2 Fops (p i)) PrimFloat.one) (zrange n) &&
   forallb (fun i => ccl_mag tol (mrow_mag L i p) (mrow_dot Fops L i p) (c0 Fops)) (zrange n).
+
+(* ================================================================== stage protocol: how many times initialize / optimize
+   actually ran for the sequence of public calls the driver made (faces? , calls, observed #initialize, observed #optimize) *)
+Definition count_stage (x : stage) (l : list stage) : Z :=
+  zlen (filter (fun y => match x, y with SInit, SInit => true | SOpt, SOpt => true | _, _ => false end) l).
+Definition check_stages (c : bool * list call * Z * Z) : bool :=
+  let '(faces, p, ni, no) := c in
+  let st := if faces then exec_calls initf_sets_initialized optf_sets_smoothed p
+            else exec_calls initv_sets_initialized optv_sets_smoothed p in
+  (count_stage SInit (st_stages st) =? ni) && (count_stage SOpt (st_stages st) =? no).
